@@ -143,6 +143,28 @@ def plainOK (kind code : Nat) (ct text : Bytes) (status : Nat) (ctype body : Byt
   ctype == (if kind == 0 then bstr "text/plain" else if kind == 1 then bstr "text/html"
             else if ct == [] then bstr "application/octet-stream" else ct)
 
+/-- documented response of `Format` for one representation: JSON as `JSON` sends it, `<p>…</p>` as
+    text/html, the one-element XML document as application/xml, the plain `%v` text as text/plain -/
+def formatShape (f : String) (code : Nat) (vtext : Bytes) (encOK : Bool) (enc : Bytes)
+    (obs : Option (Nat × Bytes × Bytes × Bool)) : Bool :=
+  match obs with
+  | none => f == "json" && !encOK                       -- an error is reported only when the value cannot be encoded
+  | some (status, ctype, body, same) =>
+    status == code &&
+    (if f == "json" then encOK && ctype == bstr "application/json; charset=utf-8" && body == enc && same
+     else if f == "html" then ctype == bstr "text/html" && body == bstr "<p>" ++ vtext ++ bstr "</p>"
+     else if f == "xml" then
+       ctype == bstr "application/xml" && body == bstr "<?xml version=\"1.0\"?>\n<response>" ++ vtext ++ bstr "</response>"
+     else ctype == bstr "text/plain" && body == vtext)
+
+/-- the oracle for `Format`: the response is the documented shape of SOME representation that is an
+    admissible answer of the negotiation over json / html / xml / txt (`admissible` is the negotiation
+    oracle for the request's Accept header; the empty answer = nothing acceptable = plain text fallback) -/
+def formatOK (admissible : Bytes → Bool) (code : Nat) (vtext : Bytes) (encOK : Bool) (enc : Bytes)
+    (obs : Option (Nat × Bytes × Bytes × Bool)) : Bool :=
+  ["json", "html", "xml", "txt", ""].any fun f =>
+    admissible (bstr f) && formatShape (if f == "" then "txt" else f) code vtext encOK enc obs
+
 /-- no CR, no LF -/
 def noCRLF (v : Bytes) : Bool := v.all (fun c => c != '\r' && c != '\n')
 
